@@ -4,7 +4,7 @@
                              one action per public operation (add_definition / add_goal, proof_by_calculation / _induction / _case /
                              _rewrite_goal at any goal, perform_rule at any step id of any calculation, clear at any node,
                              goal.proof.clear()) over six expressions, three rules (Rule.eval = a table), two items.  TLC explores ALL
-                             sequences of <= 5 (thorough: 6; and 5 with three items) operations; invariants = the clauses: TreeShape,
+                             sequences of <= 4, <= 5 on one item (thorough: 6; 5 with three items) operations; invariants: TreeShape,
                              StepIds, LabelsExact / LabelsNeverAnotherNode / CodeDiffersOnlyThere (a), EditExact (b), FinishedExact (c),
                              FactsPreceding (d).  I: get_by_label AS CODED (AsCoded = TRUE) must violate LabelsExact and
                              LabelsNeverAnotherNode (the two label defects found are design-level).  Every behaviour of <= 3
@@ -24,6 +24,7 @@
 """
 import copy
 import json
+import shutil
 import time
 from concurrent.futures import ThreadPoolExecutor
 
@@ -46,7 +47,7 @@ def keyf(e):
     if k == "rule":
         return e.get("key")
     if k == "op":
-        return "%s:%s" % (e["op"]["nm"], e.get("key"))
+        return "%s (%s)" % (e["op"]["nm"], str(e.get("src", "")).split(":")[0].rstrip("0123456789."))
     return e.get("key")
 
 
@@ -78,14 +79,18 @@ def part(v, tids):
 def run(rep, tier):
     quick = tier == "quick"
     wd = work_dir("X07", "run_%d" % os.getpid(), clean=True)
+    for d in wd.parent.glob("run_*"):          # scratch of finished runs (a live process keeps its directory)
+        pid = d.name[4:]
+        if d != wd and pid.isdigit() and not os.path.exists("/proc/" + pid):
+            shutil.rmtree(d, ignore_errors=True)
     timing = rep.notes.setdefault("timing_s", {})
-    rep.rule = ("TLC: all sequences of <= %d operations (9 actions) on a file of <= 2 items over 6 expressions / 3 rules, 8 invariants; "
+    rep.rule = ("TLC: all sequences of <= %s operations (9 actions) on a file of <= 2 items over 6 expressions / 3 rules, 8 invariants; "
                 "get_by_label as coded must violate the label invariants. Every behaviour of <= %d operations and simulated ones of 7 "
                 "performed on a real CompFile (live and server-style), then every label over 0..2 up to length 3 probed and the file "
                 "reloaded (spec -> code); seeded random sessions of 8..24 operations, the recorded example files (reload, labels, clear "
                 "at seeded nodes, re-run), every rule class through export/parse_rule (code -> spec). One event per operation / item "
                 "probed / reload / rule, judged on the clauses of the T spec. Non-trivial = operation that completed, label probe, "
-                "reload, rule; distinct by projected content." % (5 if quick else 6, 3 if quick else 4))
+                "reload, rule; distinct by projected content." % ("4 (5 on one item)" if quick else "6 (5 on three items)", 3 if quick else 4))
     rep.assumptions = [
         "expressions, rules and exported items are interned through the structural codec / their JSON text: equal number = equal raw fields",
         "Rule.eval, the statements of induction sub-goals, the negated split condition, the closing test of rewrite proofs and of "
@@ -95,15 +100,16 @@ def run(rep, tier):
         "perform_rule is judged for step ids -1 .. last; an operation that raises is not judged (a changed tree is a divergence)",
         "clause (d) AS CODED: every earlier goal is a fact, finished or not (extras/X07.md)"]
     # ---- drivers that do not need vectors run while TLC works
-    nrand = 60 if quick else 1200
-    nex = 14 if quick else 0
+    nrand = 100 if quick else 1200
+    nex = 20 if quick else 0
     pool = ThreadPoolExecutor(max_workers=3)
     futs = {"rand": pool.submit(run_driver, "x07", ["rand", wd / "rand.ndjson", nrand, seed()], timeout=7200),
             "examples": pool.submit(run_driver, "x07", ["examples", wd / "ex.ndjson", seed(), nex], timeout=7200),
             "rules": pool.submit(run_driver, "x07", ["rules", wd / "rules.ndjson"], timeout=7200)}
     try:
         t0 = time.time()
-        runs = [("X07_CompFile_small.cfg", "all sequences of <= 5 operations, 2 items, <= 2 steps")]
+        runs = [("X07_CompFile_small.cfg", "all sequences of <= 4 operations, 2 items, <= 2 steps"),
+                ("X07_CompFile_chain.cfg", "all sequences of <= 5 operations, 1 item, <= 3 steps")]
         if not quick:
             runs += [("X07_CompFile_deep.cfg", "all sequences of <= 6 operations, 2 items, <= 3 steps"),
                      ("X07_CompFile_wide.cfg", "all sequences of <= 5 operations, 3 items, <= 3 steps")]
@@ -148,7 +154,7 @@ def run(rep, tier):
             vp.write_text("\n".join(lines[k::nsl]) + "\n")
             jobs.append(pool.submit(run_driver, "x07", ["replay", vp, wd / ("tlc_%d.ndjson" % k), seed() + k], timeout=7200))
         t2 = time.time()
-        spec_mutant(rep, "perform_keeps_later_steps", "X07_CompFile", "X07_CompFile_small.cfg",
+        spec_mutant(rep, "perform_keeps_later_steps", "X07_CompFile", "X07_CompFile_chain.cfg",
                     [("X07_Tree.tla", "TruncTo(T, c, id) == T \\ { m \\in StepsOf(T, c) : LastOf(m.lab) > id }",
                       "TruncTo(T, c, id) == T \\ { m \\in StepsOf(T, c) : LastOf(m.lab) > id + 1 }")], ["EditExact", "TreeShape"], wd=wd, workers=2)
         spec_mutant(rep, "induction_finished_by_base_case", "X07_CompFile", "X07_CompFile_small.cfg",
@@ -210,7 +216,8 @@ def run(rep, tier):
     rep.notes["divergences_by_kind"] = {
         "failed operation changed the tree": sum(1 for e in ops if e["tid"] in dv and e["oc"] != "ok"),
         "code differs from X07_CompFile / step id outside": sum(1 for e in ops if e["tid"] in dv and e["oc"] == "ok"),
-        "get_by_label transcription differs": sum(1 for e in allev if e["kind"] == "labels" and e["tid"] in dv)}
+        "get_by_label transcription differs": sum(1 for e in allev if e["kind"] == "labels" and e["tid"] in dv),
+        "parse_rule changed the dictionary it was given": sum(1 for e in allev if e["kind"] == "rule" and e["tid"] in dv)}
     fin_t = sum(1 for e in ops for n in e["at"] if n["k"] == "goal" and n["fin"] == "t")
     rep.notes["finished_goals_seen"] = fin_t
     nested = sum(1 for e in ops if any(n["k"] == "goal" and len(n["lab"]) >= 2 for n in e["at"]))
@@ -289,6 +296,10 @@ def replay(path):
     e = obj["event"]
     print("event", e.get("key"), "clause", obj["clause"])
     wd = work_dir("X07", "replay_%d" % os.getpid(), clean=True)
+    for d in wd.parent.glob("replay_*"):
+        pid = d.name[7:]
+        if d != wd and pid.isdigit() and not os.path.exists("/proc/" + pid):
+            shutil.rmtree(d, ignore_errors=True)
     write_events(wd / "in.ndjson", [e])
     run_driver("x07", ["event", wd / "in.ndjson", wd / "out.ndjson"], timeout=3600)
     evs = [x for x in read_events(wd / "out.ndjson") if x["kind"] == e["kind"]]
